@@ -23,12 +23,13 @@ var ruleGroups = map[string]func(*Ctx){
 	"P1": rulesPersist, "E1": rulesPersist, "E2": rulesPersist, "I4": rulesPersist, "L1": rulesPersist,
 	"J1": rulesSize, "N1": rulesSize, "N2": rulesSize, "N3": rulesSize,
 	"A1": rulesAccess, "A2": rulesAccess, "A3": rulesAccess, "A4": rulesAccess, "T1": rulesAccess, "N4": rulesAccess,
-	"Q1": rulesRepl, "Q2": rulesRepl, "G2": rulesRepl, "L2": rulesRepl,
+	"Q1": rulesRepl, "Q2": rulesRepl, "G2": rulesRepl, "L2": rulesRepl, "Q3": rulesRepl, "Q4": rulesRepl,
 	"E3": rulesBus, "E4": rulesBus, "E5": rulesBus, "B1": rulesBus, "B2": rulesBus, "B3": rulesBus, "P2": rulesBus, "P3": rulesBus,
 	"R1": rulesStatus, "R2": rulesStatus,
 	"G1": rulesLife, "G3": rulesLife, "G4": rulesLife, "G5": rulesLife, "G6": rulesLife,
 	"X1": rulesTransport, "X2": rulesTransport, "X3": rulesTransport, "W1": rulesTransport,
-	"I6": rulesExtra, "T2": rulesExtra, "P4": rulesExtra, "B4": rulesExtra, "B5": rulesExtra,
+	"S1": rulesExtra2, "G7": rulesExtra2, "Q5": rulesExtra2, "T5": rulesExtra2, "I7": rulesExtra2,
+	"I6": rulesExtra, "T2": rulesExtra, "P4": rulesExtra, "B4": rulesExtra, "B5": rulesExtra, "T3": rulesExtra, "T4": rulesExtra,
 	"M1": rulesAddr, "M2": rulesAddr, "M3": rulesAddr, "D2": rulesAddr,
 }
 
@@ -85,13 +86,13 @@ var propSpecs = map[string]*propSpec{
 	"C01": {ID: "C01", Rules: rr("I1", "I2", "I3", "I4", "I6"), Controls: []string{"I4", "I2"},
 		Explanation: "Repo-side necessary conditions of order-independence: every index implementation computes its view from the log's total order only (I1: Values(), never GetEntries/Heads/Iterator/the incremental argument), the last-writer-wins scan is coherent (I2: scan direction vs first-seen guard; tested, marked and written key identical by normal form), store and index agree on the opcode table (I3), and every route that changes the log (write path, three merge sites) refreshes the view before reporting success (I4).",
 		NotDecided:  "that Join is set union and Values() a deterministic total order (CRDT inside go-ipfs-log); actual delivery orders."},
-	"C02": {ID: "C02", Rules: cat(rr("W1", "L2", "P3"), []ruleRef{only("P2", "_localHeads", "Get(", "anchor")}), Controls: []string{"P3"},
+	"C02": {ID: "C02", Rules: cat(rr("W1", "L2", "P3", "Q4"), []ruleRef{only("P2", "_localHeads", "Get(", "anchor")}), Controls: []string{"P3"},
 		Explanation: "Wiring needed for eventual delivery: a peer joining the topic reaches the head exchange, which sends the cached heads under the store's own address on its success path (W1); the key the write path persists is the one the exchange and the load path read (P2); fetched entries' next links are queued (L2); and the persisted local head covers every acknowledged write because Append and the persisting Put share a critical section (P3).",
 		NotDecided:  "liveness itself: fault sequences, retries, pubsub behaviour, fetchability of blocks."},
 	"C03": {ID: "C03", Rules: rr("A1", "A2", "A3", "A4", "T2"), Controls: []string{"A1"},
 		Explanation: "For all access-controller implementations: every accepting path of CanAppend passes a successful write-list membership comparison and an identity verification whose result is used (A1); that verification is not a constant accept (A2, derived from the dependency); the signing key is bound to the named identity (A3); every log is constructed with the store's controller and database id, is mutated only through Append/Join, and the controller and store type come from the manifest at the address root (A4).",
 		NotDecided:  "cryptographic soundness of signatures; that the dependency's Join/Append call CanAppend and Verify for every new entry (read once, DF6)."},
-	"C04": {ID: "C04", Rules: rr("T1", "A4", "T2"), Controls: []string{"T1"},
+	"C04": {ID: "C04", Rules: rr("T1", "A4", "T2", "T3", "T4", "T5"), Controls: []string{"T1"},
 		Explanation: "Interprocedural field-based taint from every read of a decoded MessageExchangeHeads.Heads to log constructors, entry maps and Join: no entry object received from the network reaches a log except through its content address (T1); logs are only built with the store's access controller and id and only mutated through Append/Join (A4).",
 		NotDecided:  "the dependency's signature check and log-id filter inside Join; hash collision resistance."},
 	"C05": {ID: "C05", Rules: cat(rr("P1", "P4"), []ruleRef{except("P2", "snapshot", "queue")}), Controls: []string{"P1"},
@@ -103,19 +104,19 @@ var propSpecs = map[string]*propSpec{
 	"C07": {ID: "C07", Rules: []ruleRef{only("I1", "documentstore"), only("I2", "documentstore"), only("I3", "documentstore"), {Rule: "I4"}, {Rule: "D2"}, only("I6", "documentstore")}, Controls: []string{"I2"},
 		Explanation: "Document index: as C06 for PUT, DEL and every member of PUTALL (I1–I3), view refreshed on every change (I4); Delete reaches the append only through a presence test whose absent branch leaves with an error (D2).",
 		NotDecided:  "Get's matching options and Query (string semantics, caller predicates)."},
-	"C08": {ID: "C08", Rules: []ruleRef{only("I1", "eventlogstore", "basestore"), {Rule: "I5"}, only("I6", "eventlogstore", "basestore")},
+	"C08": {ID: "C08", Rules: []ruleRef{only("I1", "eventlogstore", "basestore"), {Rule: "I5"}, only("I6", "eventlogstore", "basestore"), {Rule: "I7"}},
 		Explanation: "Event log listing is the log's total order (I1 for the event and base index); the slice the query reverses in place is freshly built by the installed index on every call (I5).",
 		NotDecided:  "append-only/stability (dependency); exact windows (integer arithmetic over positions and amounts: a solver/symbolic problem, another technique family)."},
 	"C09": {ID: "C09", Rules: rr("B1", "B2", "B4", "B5"), Controls: []string{"B1"},
 		Explanation: "Every subscription to store-scoped event types on a bus that may be the instance-wide one either filters by the event's database address before any effect, or is made on a bus private to the store (B1); both receive paths route a heads message by the address it names before Sync (B2).",
 		NotDecided:  "interference through the shared IPFS node or the pubsub router."},
-	"C10": {ID: "C10", Rules: []ruleRef{{Rule: "L1"}, only("Q1", "rejected-join"), {Rule: "I4"}}, Controls: []string{"L1"},
-		Explanation: "A failing Join stays inside the loop over fetched logs (L1); the task table's terminal state either does not block re-queuing or is collected at load-end regardless of the buffer (Q1); the view is refreshed after partial batches (I4).",
+	"C10": {ID: "C10", Rules: []ruleRef{{Rule: "L1"}, only("Q1", "rejected-join"), {Rule: "I4"}, {Rule: "T1"}, {Rule: "T2"}, {Rule: "T4"}}, Controls: []string{"L1", "T1"},
+		Explanation: "A failing Join stays inside the loop over fetched logs (L1); the task table's terminal state either does not block re-queuing, or is collected at load-end, or every fetch asks for exactly one entry so that a rejected log never holds a valid one (Q1); every Join is called on the store's own log, so each fetched log is verified and rejected on its own (T2); what is fetched under a hash is the content of that hash, never an announced object (T1); the view is refreshed after partial batches (I4).",
 		NotDecided:  "which entries the dependency rejects."},
-	"C11": {ID: "C11", Rules: []ruleRef{only("Q1", "failed-fetch", "tasks[]"), {Rule: "Q2"}, {Rule: "G2"}},
+	"C11": {ID: "C11", Rules: []ruleRef{only("Q1", "failed-fetch", "tasks[]"), {Rule: "Q2"}, {Rule: "G2"}, {Rule: "Q3"}, {Rule: "Q5"}, only("G7", "replicator"), {Rule: "S1"}},
 		Explanation: "Task states are not absorbing while blocking (Q1); a worker whose slot wait fails removes a queued item and its task entry (Q2); goroutines draining a fetch-progress channel have no exit on ctx.Done() while the fetcher can still send (G2, with DF4 derived from the dependency).",
 		NotDecided:  "behaviour of IPFS fetches under cancellation."},
-	"C12": {ID: "C12", Rules: []ruleRef{{Rule: "N2"}, {Rule: "N4"}, only("E3", "pubsub", "PayloadEmitter"), {Rule: "T1"}, only("N1", "directchannel")}, Controls: []string{"N4", "N2", "T1"},
+	"C12": {ID: "C12", Rules: []ruleRef{{Rule: "N2"}, {Rule: "N4"}, only("E3", "pubsub", "PayloadEmitter"), {Rule: "T1"}, {Rule: "T4"}, only("N1", "directchannel"), except("G7", "replicator")}, Controls: []string{"N4", "N2", "T1"},
 		Explanation: "Allocation sizes decoded from a stream are bounded on both sides before use (N2, N1 on the frame-length conversion); every pointer decoded from a message or fetched entry (heads elements, GetIdentity() results, announced clocks) is nil-tested as a pointer before dereference, including through interface boxing (N4); the payload emitter's value type matches (E3); received entries cannot alter a log except by content address (T1).",
 		NotDecided:  "panics inside dependencies (JSON/CBOR decoders, libp2p)."},
 	"C13": {ID: "C13", Rules: []ruleRef{only("N1", "basestore"), {Rule: "N3"}, only("X3", "basestore"), only("P2", "snapshot", "queue")}, Controls: []string{"N3"},
@@ -139,7 +140,7 @@ var propSpecs = map[string]*propSpec{
 	"C19": {ID: "C19", Rules: rr("R1", "R2"),
 		Explanation: "The status is written only by the recalculation helpers and reset only by Close (R1); the helpers are executed abstractly on every weak ordering of (arg, logLen, oldMax, progress, progress+1): neither value decreases and progress <= maximum is re-established (R2).",
 		NotDecided:  "progress = maximum at rest; relation to Lamport times."},
-	"C20": {ID: "C20", Rules: []ruleRef{{Rule: "X1"}, {Rule: "X2"}, only("X3", "directchannel"), {Rule: "N2"}, only("N1", "directchannel")}, Controls: []string{"N2"},
+	"C20": {ID: "C20", Rules: []ruleRef{{Rule: "X1"}, {Rule: "X2"}, only("X3", "directchannel"), {Rule: "N2"}, only("N1", "directchannel"), except("G7", "replicator")}, Controls: []string{"N2"},
 		Explanation: "All three subscription read loops deliver only on the sender ≠ self outcome (X1); the pairwise channel name is the join of the sorted pair {local, remote} (X2); frame writer/reader use matching varint codecs, the reader's bound check precedes allocation, the delivered buffer is the fully read one and is attributed to the stream's remote peer (X3, N1, N2).",
 		NotDecided:  "exactly-once of the polling membership diff; byte-for-byte delivery."},
 }
